@@ -27,13 +27,13 @@ func specsBase() []*Spec {
 		},
 		{
 			ID:     "C02",
-			Units:  []Unit{{Pkg: "", Job: "C02", Quick: []string{"default", "386", "force32bit"}, Thorough: []string{"default", "386", "force32bit", "noasm", "appengine"}}},
+			Units:  []Unit{{Pkg: "", Job: "C02", Quick: []string{"default", "386", "force32bit", "noasm+appengine"}, Thorough: allCfg}},
 			Rule:   "E1 enumeration: seeds LE32(0..n-1) + 0xff..ff (quick n=256, thorough n=4096 = the complete 12-bit seed subspace) x 20 message lengths at SHA-512 block/padding boundaries (pure); 4 (thorough 8) seeds x lengths x contexts (ctx lengths {1,2,31,32,94,95,96,254,255}, ph {0,1,254,255}; thorough every length 1..255 / 0..255) x option styles (*Options, crypto.Hash(0), crypto.SHA512, Sign helper) x entropy argument {nil, recording, panicking}. Oracle: ref.Sign/ref.Public == crypto/ed25519 of the toolchain == implementation, byte for byte; three calls identical; reader never called; inputs unmodified. non-trivial: all (every case compares 64-byte signatures).",
 			Assume: trusted,
 		},
 		{
 			ID:     "C03",
-			Units:  []Unit{{Pkg: "", Job: "C03", Quick: []string{"default", "noasm", "force32bit"}, Thorough: allCfg}},
+			Units:  []Unit{{Pkg: "", Job: "C03", Quick: []string{"default", "noasm", "force32bit", "386"}, Thorough: allCfg}},
 			Rule:   "E1 enumeration: seeds (quick 16, thorough 256) x 4 messages x 6 variant/context pairs x {single default, single ZIP-215}; batches of n distinct own signatures for n in {1,2,3,4,5,7,8,63,64,65,67,68,69,127,128,129,131,200} x 6 variants x 2 modes x {zero entropy, DRBG} x 2 rotations; one signature alone at every position of size-5 and size-65 batches; on 3 (thorough 7) build configurations. Oracle: everything accepted, len(valid)==n, S<L, R and A decodable and not small order (model).",
 			Assume: trusted,
 		},
@@ -164,16 +164,16 @@ var ruleAddenda = map[string]string{
 	"C01": "variant dimension of 6 (incl. 255-byte contexts and ph under the ctx variant's context); dimension Rrel (signature carries (-x,y) / (x,-y) of the point the equation yields); honest inputs signed by the model. Dense message lengths: every length 0..8320 and windows at 16384/32768/65536 x {pure, 1-byte ctx, 255-byte ctx} x {honest, +1, +32, -1, first/last byte} single and in a batch of 5 with one-byte neighbours. Very long messages: multiples of 2^18 up to 8 MiB (thorough 24 MiB), inner bytes changed around MiB boundaries. Crossed histories: K1 honest, then K1 xor mask (every bit, every value of bytes 0 and 31) signed with K1's scalar over the new bytes.",
 	"C03": "S = (r + h a) mod L evaluated as sign() does on all triples of a scalar boundary alphabet, per configuration; later-chunk positions. Calls in flight: k = 1..6, 8 batches of own signatures parked in their entropy readers while others run. Variant sequences sharing a context.",
 	"C05": "the heterogeneous batch shapes also in default mode (neighbours stay accepted, the entry gets the default verdict). Dense message lengths (every 4th) as C01.",
-	"C06": "arguments handed over as consecutive slices of one buffer (two calls out of three) with a changed-byte check, result vector overwritten after each call; level 1e: entropy sources answering with 1/16/17/100/1000 bytes per call x bad positions in every chunk; homogeneous chunks; runs of one bad entry; cross-variant and model-signed wrong-length-digest entries. Level big (255..1025 entries, thorough 65537; bad entries where 8/16-bit indices wrap); level dense-len (every prefix length P: signature over P bytes with a P+1 / P+32 byte message among one-byte neighbours); level near-dup (a bad entry as the spoilt copy of its honest neighbour, 5 forms, with/without forced fallback). Level crossed (16 mixed-up readings of neighbouring entries); level compensating (pairs and triples whose errors cancel under equal randomisers); level env (every GOMAXPROCS 1..64, 96, 128, 256; k = 0..6, 8 calls in flight). Levels long-msg, huge (2^22 + 68 entries); calls in flight up to 257; cpus units (taskset 3, 5, 6, 12).",
+	"C06": "arguments handed over as consecutive slices of one buffer (two calls out of three) with a changed-byte check, result vector overwritten after each call; level 1e: entropy sources answering with 1/16/17/100/1000 bytes per call x bad positions in every chunk; homogeneous chunks; runs of one bad entry; cross-variant and model-signed wrong-length-digest entries. Level big (255..1025 entries, thorough 65537; bad entries where 8/16-bit indices wrap); level dense-len (every prefix length P: signature over P bytes with a P+1 / P+32 byte message among one-byte neighbours); level near-dup (a bad entry as the spoilt copy of its honest neighbour, 5 forms, with/without forced fallback). Level crossed (16 mixed-up readings of neighbouring entries); level compensating (pairs and triples whose errors cancel under equal randomisers); level env (every GOMAXPROCS 1..64, 96, 128, 256; k = 0..6, 8 calls in flight). Levels long-msg, huge (2^22 + 68 entries); calls in flight up to 257; cpus units (taskset 3, 5, 6, 12). Level two-defects (signature kind x key kind on one entry).",
 	"C07": "digest-length sweep in batches of 70 and 140 at the first/last positions of every batched chunk; hash selectors 0..24, 64, 200, 2^31; homogeneous batches. Refusal x content: 8 refused option sets x 11 signature/key contents x 3 APIs. Re-entrant reader: inner verification and signature under another context with a fresh Options value or a struct copy of the used template. Many-contexts (17000 / 70000 distinct contexts between two uses of one).",
-	"C09": "runs of one small-order entry across a chunk boundary; small-order entry before/after a malformed entry (key31, sig63, msg63) in the first and a later chunk. Buffer-reuse section (14 torsion encodings written into the buffer an honest key / R was verified from). Fold look-alikes of every torsion encoding in an earlier chunk.",
+	"C09": "runs of one small-order entry across a chunk boundary; small-order entry before/after a malformed entry (key31, sig63, msg63) in the first and a later chunk. Buffer-reuse section (14 torsion encodings written into the buffer an honest key / R was verified from). Fold look-alikes of every torsion encoding in an earlier chunk. An invalid entry at position j with small-order R / key at j+64 and j+128.",
 	"C10": "constructed y whose square-root check value has one non-zero byte at each position, or the same byte at positions i and i+4k; points with tiny x. Check values whose words add up to a power of two.",
 	"C11": "constructed (scalar, point) pairs for chosen results: one non-zero byte per position, two equal bytes at (i,j), u = k and p-k (k < 64), u around every limb boundary of both layouts; the one-bit / byte-0 / byte-31 value neighbourhood of the base point; re-slices of Basepoint; carry-run scalars (runs of 7/8/15/0 of limb-like length with the digit below sending or not sending a carry); input arrays intact; results fresh. First-step family: a limb of E = AA - BB of the first ladder step at a wrap point of a24. The harness appends to the exported Basepoint slice before anything else; held X25519 results. Length-truncation (2^k + 32 bytes); scalar / point buffers refilled between calls.",
-	"C13": "canaries with spare capacity, content-intact comparison per content class, aliasing, malformed kinds key64/key0/msg-huge, hash selectors 0..40, 63..65, 200, 2^16, 2^31, 2^32-1 through Sign and VerifyBatch. Identical malformed neighbours and uniformly malformed batches. Every GOMAXPROCS 1..64, 96, 128, 256 x malformed entries in full chunks.",
+	"C13": "canaries with spare capacity, content-intact comparison per content class, aliasing, malformed kinds key64/key0/msg-huge, hash selectors 0..40, 63..65, 200, 2^16, 2^31, 2^32-1 through Sign and VerifyBatch. Identical malformed neighbours and uniformly malformed batches. Every GOMAXPROCS 1..64, 96, 128, 256 x malformed entries in full chunks. Two-defect entries (every ordered pair of malformed kinds on one entry); (false, nil, err) on mismatched counts.",
 	"C14": "spare-capacity independence of every returned slice; transient-error readers; every pair of byte positions x {same mask at both, +1/-1} for Equal on public and private keys. crypto/rand.Reader replaced by a recorded stream: 3000 (thorough 70000) GenerateKey(nil) calls. Hand-off reader (buffer filled by another goroutine after the caller's stack moved); held results. Typed-nil reader; returned keys overwritten in place, then derived again.",
-	"C15": "results overwritten to their capacity after every call; refused-then-sentinel histories (12 refusals x 8 sentinels); shared-Options operations; buffer-reuse histories (11 families x 3 content variants written into the same caller buffers, sequences of 2, thorough 3); fill-perturb-recheck histories (1..8 keys, 10 perturbing calls); depth-4 (thorough 6) histories over 6 operations; goroutines started by the library are recognised and never scheduled. Long runs (each operation 1030 times; thorough 66000); 10 refused operations x 6 operations under way as concurrent scenarios. Calls in flight (child mode parked); sandwich histories A, d-1 fillers, B (d around 256; thorough around 65536; GC on and off). Streak histories (2..33 failing calls, then each sentinel); calls in flight up to 257.",
-	"C16": "dirty-output pass (result must not depend on the output variable's prior content); carry-run scalars on the fixed-base path; all 7 configurations in the quick tier. Dense recodings (periodic bit patterns of period <= 8/11, +-1; every signed odd digit at spacing w and w+1). Stack-position sweep of the fixed-base multiplication (every 8-byte depth up to 72 KB); 8 configurations.",
-	"C17": "every multi-scalar case also into an output point holding [4+n]B; reuse sequences share heap and output point and put r=0 / r=1 chunks after a general chunk; end to end: fallback offsets of mixed batches == the chunks holding a bad entry. All-valid batches over every message length 0..8327 x 3 variants: no fallback. Parallel section: 5 histories of refused calls, then two all-valid batches of 1536 at the same time: no fallback. cpus units (taskset 3, 6, 7, 12).",
+	"C15": "results overwritten to their capacity after every call; refused-then-sentinel histories (12 refusals x 8 sentinels); shared-Options operations; buffer-reuse histories (11 families x 3 content variants written into the same caller buffers, sequences of 2, thorough 3); fill-perturb-recheck histories (1..8 keys, 10 perturbing calls); depth-4 (thorough 6) histories over 6 operations; goroutines started by the library are recognised and never scheduled. Long runs (each operation 1030 times; thorough 66000); 10 refused operations x 6 operations under way as concurrent scenarios. Calls in flight (child mode parked); sandwich histories A, d-1 fillers, B (d around 256; thorough around 65536; GC on and off). Streak histories (2..33 failing calls, then each sentinel); calls in flight up to 257. The four small-order-R operations (single / batch x ZIP-215 / default) in every ordered pair and triple.",
+	"C16": "dirty-output pass (result must not depend on the output variable's prior content); carry-run scalars on the fixed-base path; all 7 configurations in the quick tier. Dense recodings (periodic bit patterns of period <= 8/11, +-1; every signed odd digit at spacing w and w+1). Stack-position sweep of the fixed-base multiplication (every 8-byte depth up to 72 KB); 8 configurations. P also in the projective form (3X : 3Y : 3Z : 3T).",
+	"C17": "every multi-scalar case also into an output point holding [4+n]B; reuse sequences share heap and output point and put r=0 / r=1 chunks after a general chunk; end to end: fallback offsets of mixed batches == the chunks holding a bad entry. All-valid batches over every message length 0..8327 x 3 variants: no fallback. Parallel section: 5 histories of refused calls, then two all-valid batches of 1536 at the same time: no fallback. cpus units (taskset 3, 6, 7, 12). Common factors 2^30, 2^56, 2^60, 2^90, 2^112, 2^120 (final scalar with its leading bit at the lowest bit of a limb).",
 	"C18": "dirty-output pass; reducing and after-basic forms on one-level unreduced operands on either side. Small-constant multipliers x limbs at the constants' wrap points floor(m*2^w/k).",
 	"C19": "dirty-output pass. Constructed remainders: q*L + r and a*(r/a) for r = rho mod L, rho over limb-class values of both layouts in [0, 3L).",
 	"C08": "layer-level transcripts for modm and ge25519; X25519 constructed results (u = k, p-k, powers of 256) and carry-run scalars. Constructed-remainder transcript class (expand-remainder). Base-point product at every stack depth (transcript class x25519-base-stack); 8th configuration 386+force64bit.",
